@@ -137,6 +137,8 @@ const F32_POOL: &[u32] = &[
     0x4049_0fdb, // pi
     0x42c8_0000, // 100
     0xc479_c000, // -999
+    0x4e6e_6b28, // 999999999 as f32 (1e9): the number rbx_dom_lua writes for math.huge
+    0xce6e_6b28, // -1e9
 ];
 const F32_NONFINITE: &[u32] = &[
     0x7f80_0000, // inf
@@ -162,6 +164,11 @@ const F64_POOL: &[u64] = &[
     0x4005_bf0a_8b14_5769, // e
     0x7e37_e43c_8800_759c, // 1e300
     0x01a5_6e1f_c2f8_f359, // 1e-300
+    0x41cd_cd64_ff80_0000, // 999999999.0: the number rbx_dom_lua writes for math.huge
+    0xc1cd_cd64_ff80_0000, // -999999999.0
+    0x41cd_cd65_0000_0000, // 1e9
+    0x41df_ffff_ffc0_0000, // i32::MAX
+    0x43e0_0000_0000_0000, // 2^63
 ];
 const F64_NONFINITE: &[u64] = &[
     0x7ff0_0000_0000_0000,
@@ -183,6 +190,14 @@ const STR_POOL: &[&str] = &[
     "\n",
     "line1\nline2",
     "tab\there",
+    "http://www.roblox.com/asset/?id=123456",
+    "https://www.roblox.com/asset/?id=7",
+    "http://www.roblox.com/asset?id=7&version=3",
+    "rbxassetid://123456",
+    "rbxasset://textures/face.png",
+    "rbxthumb://type=Asset&id=1&w=150&h=150",
+    "rbxgameasset://Images/x",
+    "RBXASSETID://5",
     "a\rb",
     "a\r\nb",
     "\r",
